@@ -74,7 +74,7 @@ def run_gotest(vc, scr, spec, res, prop_filter=None):
             os.makedirs(wd, exist_ok=True)
             env = vc.goenv({"TMPDIR": wd})
             argv = [cbin, "-bin", rbin, "-dir", os.path.join(wd, "net"), "-seed", str(res.seed * 1000003 + k), "-rounds", str(rounds),
-                    "-base_port", str(23000 + (res.seed % 50) * 100 + idx * 10), "-out", os.path.join(wd, "out.jsonl")]
+                    "-base_port", str(23000 + (res.seed % 50) * 100 + idx * 10), "-out", os.path.join(wd, "out.jsonl")] + part.get("cluster_args", [])
             c = vc.Child(argv, env, os.path.join(wd, "out.jsonl"), os.path.join(wd, "log.txt"), wd, timeout)
             c.part = dict(part, test="cluster")
             c.k = k
@@ -410,7 +410,9 @@ def c07_on_fatal(vc, spec, res, c, recs):
 
 
 register("C07", title="message of death is contained", pkg=".", on_fatal=c07_on_fatal,
-         parts=[{"test": "^TestVerifC07$", "children": {"quick": 8, "thorough": 16}, "cases": {"quick": 5, "thorough": 40}}],
+         parts=[{"test": "^TestVerifC07$", "children": {"quick": 8, "thorough": 16}, "cases": {"quick": 5, "thorough": 40}},
+                {"cluster": True, "cluster_args": ["-mod"], "tiers": ["thorough"], "children": {"quick": 0, "thorough": 4}, "cases": {"quick": 1, "thorough": 2},
+                 "race": {"quick": False, "thorough": False}, "timeout": {"quick": 900, "thorough": 2400}}],
          timeout={"quick": 400, "thorough": 2400}, level="fault_enumeration",
          env={"ROBUSTIRC_TESTING_ENABLE_PANIC_COMMAND": "1"},
          rule="a child process owns a node directory (real raftlog/irclog LevelDB stores, real FSM) and applies a seeded history whose entry at a seeded "
@@ -422,7 +424,8 @@ register("C07", title="message of death is contained", pkg=".", on_fatal=c07_on_
               "number of later entries)",
          floor={"quick": 300, "thorough": 5000},
          technique="crash injection in a child process + durable-log inspection + differential replay",
-         level_note="the three-node variant (every node exits and recovers) is exercised by the real-binary scenario of C05's thorough tier")
+         level_note="thorough tier adds the three-node variant on real binaries (cluster -mod): a client posts PANIC, the nodes that apply it terminate (each at most "
+                    "once), after restarts the network is stable again, the retry with the same client message id is acknowledged without another crash")
 
 
 # ---------------------------------------------------------------------------
